@@ -140,6 +140,8 @@ class CSA:
                 out += self.match_pat(c, val, st, env)
             return out
         if k == 'p_tuple':
+            if not pat['elems'] and val[0] in ('unit', 'unk'):
+                return [('yes', st, env)]          # the pattern `()`
             if val[0] != 'tuple' or len(val[1]) != len(pat['elems']):
                 raise Undecided('CSA: tuple pattern against %s' % (val,))
             results = [('yes', st, env)]
